@@ -77,6 +77,7 @@ def run(t):
         raise NoVerdict(f"the JDK validator contradicts the expected verdict of a rewrite: {o['notes'][:3]}")
     if o["counters"].get("jdk_judged", 0) < 30 and not o["failures"]:
         raise NoVerdict(f"JDK validator judged only {o['counters'].get('jdk_judged')} rewrites: {o['notes'][:3]}")
+    o["failures"] = [f for f in o["failures"] if f["key"].get("kind") != "jdk-rejects-relic-output"]   # owned by C05
     _absorb(run, o)
     run.cov["rule"] = (f"{ndocs} of {len(behs)} generated documents (seeded sample in quick; thorough: all documents of two option-set configurations), each in three lexical styles (attribute order, "
                        "quote style, empty-element form, prolog, comments outside, CDATA/character references, whitespace in tags): "
